@@ -53,6 +53,9 @@ def main():
         sh("git checkout -- . && git clean -fdq", cwd=REPO)
         rc, o = sh("git apply /verif/seeded/%s/patch.diff" % sid, cwd=REPO)
         if rc != 0:
+            # the change was written against an earlier HEAD (before a hook commit touched neighbouring lines)
+            rc, o = sh("patch -p1 --fuzz=3 --no-backup-if-mismatch < /verif/seeded/%s/patch.diff" % sid, cwd=REPO)
+        if rc != 0:
             res[sid] = {"target": target, "error": "patch does not apply: " + o[-200:]}
             continue
         flagged, with_input = [], []
